@@ -14,8 +14,9 @@
    What is NOT a theorem: that CPython enumerates a set of ints in an order that depends only on its construction
    history (trusted, exercised by the differential runs); order-freeness of the unmodelled ring heuristics and of the
    writer's tie-breaks between atoms of equal weight (reason IntHistory / KeyedTieBreak: differential runs only).
-   The faithful model of `list(v)` over a set of str in morgan_hash_smiles is NOT order free: C19_list_of_str_set_refuted
-   (known finding, reproduced on the real code under two hash seeds by the check). *)
+   The faithful model of `list(v)` / `tmp.extend(v)` over a set of str (morgan_hash_smiles) or of molecules, which hash
+   through their str (remove_reagents), is NOT order free: C19_list_of_str_set_refuted (known findings, reproduced on
+   the real code under two hash seeds by every run of the check). *)
 From Coq Require Import ZArith List String Bool Permutation.
 From Model Require Import PyBase Graph Determinism.
 From Model Require Morgan Fingerprint Rings Iso.
